@@ -21,6 +21,7 @@
 
 import __future__
 import abc
+import inspect
 import sys
 import types
 from itertools import zip_longest
@@ -345,9 +346,20 @@ def default_sources(sig, obj):
     return srcs
 
 
+def _annotations_owner(obj):
+    """The function whose annotations `inspect.signature` reports for obj:
+    the one at the end of the ``__wrapped__`` chain it follows"""
+    try:
+        return inspect.unwrap(
+            obj, stop=lambda func: hasattr(func, '__signature__'))
+    except ValueError:
+        return obj
+
+
 def set_default_sources(sig, obj):
     """Assigns the source of every parameter of sig to obj"""
-    return Signature._upgrade(sig, obj, default_sources(sig, obj))
+    return Signature._upgrade(
+        sig, _annotations_owner(obj), default_sources(sig, obj))
 
 
 def signature(obj):
